@@ -14,3 +14,4 @@ INVARIANT AccumulationExact
 INVARIANT SameOperator
 INVARIANT RowsSumToOne
 INVARIANT ErrorIffDeviation
+INVARIANT FineReduces
